@@ -3094,8 +3094,71 @@ fn msg_header_name() -> BoxedStrategy<String> {
         5 => (select(MSG_NAMES.to_vec()), any::<u32>(), prop::bool::weighted(0.3)).prop_map(|(n, mask, flip)| if flip { flip_case(n, mask) } else { n.to_string() }),
         // unknown names: "X-" + token can collide with no known or compact name
         3 => token(8).prop_map(|t| format!("X-{t}")),
+        // spellings (any letter case) of the print name and the aliases of the application-defined names in
+        // CUSTOM_NAMES: the message parser knows none of them, the application looks them up with `Name::custom`
+        2 => (select(custom_spellings()), any::<u32>(), prop::bool::weighted(0.6)).prop_map(|(n, mask, flip)| if flip { flip_case(n, mask) } else { n.to_string() }),
     ]
     .boxed()
+}
+
+/// application-defined header names (`Name::custom(print name, names matched case-insensitively in messages)`),
+/// used for LOOK-UPS only, as the documentation of `Name::custom` asks. The alias lists are written in lower, upper
+/// and mixed case: the documentation promises a case-insensitive match whatever the spelling in the list.
+const CUSTOM_NAMES: &[(&str, &[&str])] = &[
+    ("X-Foo", &["x-foo", "xf"]),
+    ("X-Bar", &["X-Bar", "XB"]),
+    ("P-Charge-Info", &["p-charge-info"]),
+    ("X-Mixed-Case", &["X-mixed-CASE", "xMc"]),
+];
+
+fn custom_spellings() -> Vec<&'static str> {
+    CUSTOM_NAMES.iter().flat_map(|(p, a)| std::iter::once(*p).chain(a.iter().copied())).collect()
+}
+
+/// What a look-up with an application-defined name finds in a parsed message: every header field whose name is -
+/// without regard to letter case - the print name or one of the aliases is the same header to that name, from
+/// both sides of `==`; `Headers::contains` / `Headers::remove` find the first such header with its values in order.
+fn check_custom_lookup(headers: &Headers, who: &str, out: &mut CaseOut) {
+    for (print, aliases) in CUSTOM_NAMES {
+        let custom = Name::custom(print, aliases);
+        let model = |n: &str| n.eq_ignore_ascii_case(print) || aliases.iter().any(|a| a.eq_ignore_ascii_case(n));
+        let mut first: Option<(*const Name, String, Vec<String>)> = None;
+        for (n, v) in headers.iter() {
+            let spelled = n.as_print_str().to_string();
+            let m = model(&spelled);
+            let (l, r) = (custom == *n, *n == custom);
+            if l != m || r != m {
+                out.fail(
+                    "c01.msg.ezk/custom-name-eq",
+                    format!("{who}: header name {spelled:?} vs Name::custom({print:?}, {aliases:?}): custom == parsed is {l}, parsed == custom is {r}, case-insensitive match of print name / aliases is {m}"),
+                );
+            }
+            if m {
+                match &mut first {
+                    None => first = Some((n as *const Name, spelled, vec![v.to_string()])),
+                    Some((p, _, vals)) if std::ptr::eq(*p, n) => vals.push(v.to_string()),
+                    _ => {}
+                }
+            }
+        }
+        if first.is_some() {
+            out.class("header looked up through Name::custom");
+            if first.as_ref().map_or(false, |(_, sp, _)| sp != print && !aliases.contains(&sp.as_str())) {
+                out.class("header looked up through Name::custom: spelled in another letter case than print name and aliases");
+            }
+        }
+        if headers.contains(&custom) != first.is_some() {
+            out.fail("c01.msg.ezk/custom-name-contains", format!("{who}: Headers::contains(Name::custom({print:?}, {aliases:?})) is {}, the message has {:?}", headers.contains(&custom), first.as_ref().map(|f| &f.1)));
+        }
+        let got = headers.clone().remove(&custom).map(|v| v.iter().map(|b| b.to_string()).collect::<Vec<_>>());
+        let want = first.as_ref().map(|f| f.2.clone());
+        if got != want {
+            out.fail(
+                "c01.msg.ezk/custom-name-values",
+                format!("{who}: Headers::remove(Name::custom({print:?}, {aliases:?})) returns {got:?}; the first header of that name ({:?}) has the values {want:?}", first.as_ref().map(|f| &f.1)),
+            );
+        }
+    }
 }
 
 /// UTF8-NONASCII characters that are blank to the eye and/or to Unicode (`char::is_whitespace`: U+0085, U+00A0,
@@ -3327,6 +3390,10 @@ fn check_message(c: &MsgCase, out: &mut CaseOut) {
     if c.headers.iter().any(|(n, _)| n.starts_with("X-")) {
         out.class("unknown name");
     }
+    if c.headers.iter().any(|(n, _)| custom_spellings().iter().any(|s| s.eq_ignore_ascii_case(n))) {
+        out.class("name an application-defined Name::custom matches");
+        out.nontrivial(&key(c));
+    }
     let edges: Vec<(bool, bool)> = c.headers.iter().map(|(_, v)| unicode_blank_edges(v)).collect();
     if edges.iter().any(|e| e.0) {
         out.class("value starts with a Unicode blank that is not SIP LWS");
@@ -3415,6 +3482,7 @@ fn check_message(c: &MsgCase, out: &mut CaseOut) {
             }
             let got = group(headers.iter().map(|(n, v)| (n.as_print_str().to_string(), v.to_string())));
             compare_maps(&want, &got, "c01.msg.ezk", who, out);
+            check_custom_lookup(&headers, who, out);
             match (&c.start, &line) {
                 (StartC::Request { method, uri }, MessageLine::Request(l)) => {
                     if !expected_method_text(method).contains(&l.method.to_string()) {
